@@ -134,7 +134,9 @@ def run_driver(driver, cases, op_timeout=20, wall_timeout=None, env_extra=None):
         out_path = in_path[:-3] + '.out'
         err_path = in_path[:-3] + '.err'
         n_ops = len(owners)
-        wt = wall_timeout if wall_timeout is not None else max(120, 60 + n_ops * 0.05)
+        # wall-clock guard around the whole chunk: generous, and its firing is a harness condition (inconclusive), never a
+        # verdict - hangs are detected by the driver's own CPU-time watchdog per operation
+        wt = wall_timeout if wall_timeout is not None else max(900, 300 + n_ops * 0.25 + op_timeout * 4)
         timed_out = False
         with open(in_path, 'rb') as fi, open(out_path, 'wb') as fo, open(err_path, 'wb') as fe:
             proc = subprocess.Popen([driver], stdin=fi, stdout=fo, stderr=fe, env=env)
@@ -186,10 +188,13 @@ def run_driver(driver, cases, op_timeout=20, wall_timeout=None, env_extra=None):
         else:
             bad_ci, bad_oi = owners[begun]
         res = results[bad_ci]
-        if hang_at is not None or timed_out:
+        if hang_at is not None:
             res.hang = True
             res.stderr = err_text[-2000:]
             res.death = None
+        elif timed_out:
+            res.death = {'kind': 'harness', 'key': 'harness:wall-clock-guard', 'op_index': bad_oi,
+                         'text': f'the driver process did not finish {n_ops} operations within {wt:.0f} s of wall-clock (machine overloaded or process blocked); no verdict'}
         else:
             kind, key, text = classify_death(err_text, rc)
             res.death = {'kind': kind, 'key': key, 'text': text, 'op_index': bad_oi}
